@@ -396,32 +396,11 @@ func (obj *SparseInt16Vector) Permute(pi []int) error {
   if len(pi) != obj.n {
     return errors.New("Permute(): permutation vector has invalid length!")
   }
-  // permute vector
-  for i := 0; i < obj.n; i++ {
-    if pi[i] < 0 || pi[i] >= obj.n {
-      return errors.New("Permute(): invalid permutation")
-    }
-    if i != pi[i] && pi[i] > i {
-      // permute elements
-      _, ok1 := obj.values[i]
-      _, ok2 := obj.values[pi[i]]
-      if ok1 && ok2 {
-        obj.values[pi[i]], obj.values[i] = obj.values[i], obj.values[pi[i]]
-      } else
-      if ok1 {
-        obj.values[pi[i]] = obj.values[i]
-        delete(obj.values, i)
-      } else
-      if ok2 {
-        obj.values[i] = obj.values[pi[i]]
-        delete(obj.values, pi[i])
-      }
-    }
+  if err := checkPermutation(pi, obj.n); err != nil {
+    return errors.New("Permute(): invalid permutation")
   }
-  obj.vectorSparseIndex = vectorSparseIndex{}
-  for i, _ := range obj.values {
-    obj.indexInsert(i)
-  }
+  // permute vector, element i becomes element pi[i]
+  applyPermutation(pi, obj.Swap)
   return nil
 }
 /* sorting
